@@ -32,7 +32,7 @@ NOT_COVERED = ["stats, cache_memlimit (reply is a block of STAT lines read throu
                "raw_command with a caller-chosen end token (unit boundary is whatever the caller says)",
                "PooledClient / HashClient wrappers: C09 shows a failed pooled client is destroyed and closed; HashClient pending",
                "'never blocks' beyond 'performs no read': termination is not decided by this family"]
-BUDGET = {"quick": 30, "thorough": 180}
+BUDGET = {"quick": 40, "thorough": 180}
 DEPENDS = ["C03", "C06", "C09"]      # reader contracts and the _connect/close contract used at every call site are re-proved in the same run
 FILTER_BY_PROPERTY = True
 
